@@ -101,7 +101,7 @@ def ops : List (String × Handler) := [
       pure (res (fun p => traceJ p steps) p)),
   ("fd_useq", fun j => do
       let steps ← getSteps j
-      pure (res (fun p => traceJ p steps) (Pdu.unpack (← getHex j "raw")))),
+      pure (res (fun p => traceJ p steps) (unpackSfx (← getHex j "raw") (← getHex j "suffix")))),
   ("fd_eq", fun j => do
       let a ← getPdu j
       let c ← Ops.CfdpHeader.getConf j
